@@ -730,7 +730,9 @@ impl View for ViewCached {
         layout: ViewLayout<'_>,
     ) -> Result<(), Error> {
         if let Some(view) = layout.data::<ArcView<'static>>() {
-            view.render(ctx, surf, layout.view())?;
+            let surf = layout.apply_to(surf);
+            let child_layout = layout.children().next().ok_or(Error::InvalidLayout)?;
+            view.render(ctx, surf, child_layout)?;
         }
         Ok(())
     }
@@ -741,9 +743,15 @@ impl View for ViewCached {
         ct: BoxConstraint,
         mut layout: ViewMutLayout<'_>,
     ) -> Result<(), Error> {
+        // NOTE: referenced view is laid out in its own node, if it shared the node with
+        //       the reference its layout data would be overwritten by the view stored here
+        //       (reference to a reference would render itself recursively, referenced
+        //       tag would lose its value)
         if let Some(view) = self.cache.as_ref().and_then(|c| c.get(self.uid)) {
-            view.layout(ctx, ct, layout.view_mut())?;
-            layout.set_data(view);
+            let mut child_layout = layout.push_default();
+            view.layout(ctx, ct, child_layout.view_mut())?;
+            let size = child_layout.size();
+            *layout = Layout::new().with_size(size).with_data(view);
         }
         Ok(())
     }
